@@ -29,6 +29,22 @@ inline void tick(const char* site)
         handler(site);
 }
 
+//! Handler that receives named intermediate quantities which are not observable from outside
+typedef void (*observe_function)(const char* name, double value);
+
+inline observe_function& observe_handler()
+{
+    static observe_function handler = nullptr;
+    return handler;
+}
+
+inline void observe(const char* name, double value)
+{
+    observe_function handler = observe_handler();
+    if (handler)
+        handler(name, value);
+}
+
 //! Process-global generator used by tapkee::random_shuffle under the guard
 inline std::mt19937& shuffle_engine()
 {
@@ -44,9 +60,11 @@ inline void shuffle_seed(unsigned int seed)
 } // namespace tapkee
 
 #define TAPKEE_VERIF_TICK(site) ::tapkee::verif::tick(site)
+#define TAPKEE_VERIF_OBSERVE(name, value) ::tapkee::verif::observe(name, value)
 
 #else
 
 #define TAPKEE_VERIF_TICK(site)
+#define TAPKEE_VERIF_OBSERVE(name, value)
 
 #endif
